@@ -30,7 +30,7 @@ CLAIMED["C09"] = dict(
    text="Decision logic proved outright over a model whose data is regenerated from the source on every run: default table by executing aln_param_init on "
         "the biotype x type grid, override guards and --type word chain by parsing. Theorems: an override >= 0 replaces exactly its own field (any carrier, any values), "
         "explicit default = implicit, single overrides, README defaults (dna/internal numbers, CorBLOSUM66_13plus / Gonnet250 reference copies), documented words select their "
-        "type, mismatching types rejected. Tie: bit-exact unit correspondence of aln_param_init/set_aln_type; end-to-end PARAM-hook observation; CLI vs library. "
+        "type, mismatching types rejected. Tie: bit-exact unit correspondence of aln_param_init/set_aln_type; end-to-end PARAM-hook observation; CLI vs library; marginal two-group inputs (short overlap, overhangs; all types and override subsets) through the proved pipeline model and the code, a differing alignment scored under exactly the selected parameters (refsp) and reported with the input when it scores lower. "
         "The command-line front end is modelled too (Model/Cli.lean: glibc getopt_long_only, atoi, atof narrowed to float, early exits, input list; all tables regenerated into Gen/Cli.lean by translator T5) and tied to the real main() by the `cli` op (library entry points replaced by recorders): cli_override_exact / cli_run_config (last occurrence wins, independent of option order and file positions), cli_inputs_order, cli_type_words, cli_defaults, cli_early_exits, and cli_to_dp / cli_gpo_override_to_dp composing argv with C09_override_exact down to the DP parameters.",
    note="Out-of-range type values represented by executed samples (-1,5,6,99). RNA penalties are not pinned (README gives no numbers). Trusted: translators T1/T2, Lean kernel.",
    technique="Lean 4 `decide` over regenerated tables + generic case analysis; differential correspondence; end-to-end hook oracle",
@@ -40,7 +40,7 @@ CLAIMED["C13"] = dict(
    text="Lean theorems about the exact-arithmetic reading `detectExact` of detect_alphabet (letter sets and the four probabilities regenerated from the C text): "
         "P1 all residues in ACGTUN (either case) => nucleotide; P2 at least a quarter protein-only letters => protein; P3 invariance under permutation of the sequences. "
         "Tie: bit-exact unit correspondence of detect_alphabet vs the double-precision model on histograms around both premises and the decision boundary; "
-        "exact-vs-double agreement measured; end-to-end biotype, --type acceptance and MSF header on plain / heavily gapped / shuffled+renamed presentations.",
+        "exact-vs-double agreement measured; end-to-end biotype, --type acceptance and MSF header on plain / heavily gapped / shuffled+renamed / multi-file presentations, very long FASTA description lines, and the in-memory entry point (kalign_arr_to_msa, kalign()) called repeatedly in one process with the kinds alternating.",
    note="A-float: the C code computes in doubles with libm log; theorems are over rationals (cross-multiplied naturals). Trusted: translator T2 (letter strings, probabilities).",
    technique="Lean 4 product-of-powers inequality over regenerated constants; differential correspondence; end-to-end oracle",
    ref="4 C13")
@@ -79,7 +79,7 @@ CLAIMED["C04"] = dict(
 CLAIMED["C06"] = dict(
    text="Lean theorems fasta/clu/msf_roundtrip(+_input), sniff_written_*, roundtrip_any, cross_format: for every well-formed alignment (decidable AlnWF: names over [A-Za-z0-9_.|-], "
         "1..200 bytes, rows of equal length >= 1, every row has a residue) reading what the writer produced returns exactly names, residues and gap vectors in order, and the "
-        "sniffer selects the right reader. Tie: bit-exact correspondence of writers and readers on generated alignments; oracle read(write(A)) on the real code for all formats. "
+        "sniffer selects the right reader. Tie: bit-exact correspondence of writers and readers on generated alignments; oracle read(write(A)) on the real code for all formats and conversion through kalign (reader -> finalise -> writer -> reader) for all nine ordered format pairs. "
         "kalignFile_roundtrip: whatever the whole-program model writes reads back to exactly its names and rows (kalign_file correspondence ties kalignFile to the real code).",
    note="fprintf/getline/snprintf by specification; side conditions on version/basename/date (FileOK) are decidable and shown satisfiable.",
    technique="Lean 4 proofs (sorted line-buffer layout lemma, 60-column chunking); differential correspondence; round-trip oracle",
@@ -180,7 +180,7 @@ CLAIMED["C11"] = dict(
         "bit-for-bit to the C routines. Theorems (all stages, no partial): Sellers' recurrence = min over substrings of Levenshtein distance; Myers cell rule; one block step "
         "with carry (carry identity proved at any width, no bv_decide); C11_bpm_block_correct: bpmBlock t p = levSub (p.take 1024) t for any text over the 13 symbols; "
         "C11_bpm64_correct, C11_bpm256_correct; the 256-bit add/shift lane emulations equal the wide operations. Oracle: real routines vs an independent plain DP in the "
-        "harness on exhaustive small pairs and random pairs around every multiple of 64 and the caps, AVX2 and non-AVX2 builds.",
+        "harness on exhaustive small pairs and random pairs around every multiple of 64 and the caps, AVX2 and non-AVX2 builds; the kernels called from 4-16 threads at once against the value each pair gets alone.",
    note="Intel intrinsic semantics by specification; bpm_256 has UB (1 << 31 on int) for patterns >= 32 symbols - not used in production (BPM = bpm_block).",
    technique="Lean 4 proof of Myers' bit-vector algorithm (block variant) against Sellers/Levenshtein; three-way differential correspondence",
    ref="4 C11")
